@@ -102,7 +102,7 @@ def check_wrap(case, rec, distinct=False):
         rec.cls('wrap-implicit-repeater' + ('-placeholders' if M.has_placeholder(script) else ''))
         lines = clean_lines(text) if isinstance(text, list) else [text]
         nodes = M.unroll(tree, None, None, lines)
-        exp = M.render(nodes, {})
+        exp = M.strip_fields(M.render(nodes, {}))
         if got != exp:
             rec.fail('wrap-repeat-mismatch', 'abbr %r text=%r\n expected %r\n got      %r' % (abbr, text, exp, got))
         return
@@ -115,16 +115,16 @@ def check_wrap(case, rec, distinct=False):
     if '\n' not in whole and '\r' not in whole:
         rec.cls('wrap-once-single-line')
         d.text = (d.text or '') + whole
-        exp = M.render(nodes, {})
+        exp = M.strip_fields(M.render(nodes, {}))
         if got != exp:
             rec.fail('wrap-once-mismatch', 'abbr %r text=%r\n expected %r\n got      %r' % (abbr, text, exp, got))
         return
     rec.cls('wrap-once-multi-line')
     # multi-line: indentation of continuation lines is formatting; compare the trimmed non-blank line sequence inside the target element
     mark = '\x00MARK\x00'
-    own = d.text or ''
+    own = M.strip_fields(d.text or '')
     d.text = mark
-    skeleton = M.render(nodes, {})
+    skeleton = M.strip_fields(M.render(nodes, {}))
     pre, post = skeleton.split(mark)
     if not (got.startswith(pre) and got.endswith(post) and len(got) >= len(pre) + len(post)):
         rec.fail('wrap-once-mismatch', 'abbr %r text=%r\n expected frame %r … %r\n got %r' % (abbr, text, pre, post, got))
@@ -236,8 +236,10 @@ def wrap_case(draw):
     x = el('xt')
     sc_last = draw(st.integers(0, 5)) == 0     # the deepest last element is written self-closing (`x/`): its text is still its content
     nested = draw(st.sampled_from([None, None, 2, 3])) if mode != 'none' else None   # explicit repeater below the implicit one
-    if draw(st.booleans()):
-        x['x'] = ['own ']
+    # own inline text of the receiving element, also one that ends in a tabstop field (the wrap text is appended after it)
+    own = draw(st.sampled_from([None, None, ['own '], ['own '], ['own ', ['f', 1, None]], ['Name: ', ['f', 1, 'n']], [['f', 0, None]]]))
+    if own is not None:
+        x['x'] = own
     if mode != 'none':
         x['r'] = '*'
     if mode == 'star-ph':
@@ -275,6 +277,11 @@ def wrap_case(draw):
         text = draw(st.text(alphabet=[c for c in LINE_ALPHA if c not in ' \t'], min_size=1, max_size=8))
     else:
         text = draw(lines_strategy())
+    if sc[-1] is not x:
+        # an element whose text carries a field prints its children in place of the field (C13's business): fields only on a childless receiver
+        for holder in ([x] if 'g' not in item else [x, inner]):
+            if holder.get('x'):
+                holder['x'] = [a for a in holder['x'] if not (isinstance(a, list) and a[0] == 'f')] or None
     last = sc[-1]
     blank = not (''.join(text) if isinstance(text, list) else text).strip()
     if sc_last and 'g' not in last and not (mode == 'none' and blank):
